@@ -14,6 +14,7 @@ import TxVerif.Model.CrashFail
 import TxVerif.Model.CrashFailOpt
 import TxVerif.Model.PQDriver
 import TxVerif.Model.PQCounters
+import TxVerif.Model.PQQueueDriver
 open TxVerif
 
 def choiceStr : Choice → String
@@ -264,6 +265,31 @@ partial def pqhdrLoop (h : IO.FS.Stream) (line checked mism : Nat) : IO (Nat × 
       pqhdrLoop h (line + 1) (checked + 1) (mism + 1)
   | _ => pqhdrLoop h (line + 1) checked mism
 
+/-- pqmodel mode: replay the queue traces (one program = the lines between `program …` and `end`) on the
+    queue model `QState` with the specification `ASpec` alongside (Model/PQQueueDriver.lean).
+    `sim = none` before the first `open` of a program; `dead` = the rest of the program is not compared
+    (skipped or diverged after a mismatch).  `strict` (`driver pqmodel strict`): calls with a failed
+    transaction (`err:oom`, injected faults) end the replay of the program instead of being replayed with the
+    failing-flush writer model. -/
+partial def pqmodelLoop (h : IO.FS.Stream) (strict : Bool) (sim : Option PQSim) (dead : Bool) (prog : String)
+    (line checked mism progs skipped : Nat) : IO (Nat × Nat × Nat × Nat) := do
+  let ln ← h.getLine
+  if ln.isEmpty then return (checked, mism, progs, skipped)
+  let l := ln.trimAscii.toString
+  let line := line + 1
+  if l.startsWith "program " then pqmodelLoop h strict none false l line checked mism progs skipped
+  else if l == "end" then pqmodelLoop h strict none false "" line checked mism (progs + 1) skipped
+  else if l.isEmpty || l.startsWith "#" || dead then pqmodelLoop h strict sim dead prog line checked mism progs skipped
+  else
+    match pqSimLine strict sim l with
+    | .ok s => pqmodelLoop h strict (some s) false prog line (checked + 1) mism progs skipped
+    | .skip why => do
+      IO.println s!"SKIP {prog} line={line}: {why}"
+      pqmodelLoop h strict sim true prog line checked mism progs (skipped + 1)
+    | .mismatch msg => do
+      IO.println s!"MISMATCH {prog} line={line} `{l}`: {msg}"
+      pqmodelLoop h strict sim true prog line (checked + 1) (mism + 1) progs skipped
+
 /-- engine mode: programs are delimited by `program …` / `end` lines -/
 partial def engLoop (h : IO.FS.Stream) (st : EngSt) (prog : String) (checked mism progs : Nat) : IO (Nat × Nat × Nat) := do
   let line ← h.getLine
@@ -291,6 +317,10 @@ def main (args : List String) : IO UInt32 := do
   | "pqhdr" =>
     let (checked, mism) ← pqhdrLoop stdin 0 0 0
     IO.println s!"DONE checked={checked} mismatches={mism} bad=0"
+    return (if mism == 0 then 0 else 1)
+  | "pqmodel" =>
+    let (checked, mism, progs, skipped) ← pqmodelLoop stdin (args.drop 1 == ["strict"]) none false "" 0 0 0 0 0
+    IO.println s!"DONE checked={checked} mismatches={mism} bad=0 programs={progs} skipped={skipped}"
     return (if mism == 0 then 0 else 1)
   | "crash" =>
     let (checked, mism, progs) ← crashLoop stdin [] "" 0 0 0
